@@ -11,9 +11,9 @@ sys.path.insert(0, ROOT)
 SUITES = {
     'tcpcl': ['tcpcl_types', 'tcpcl_models', 'tcpcl_models2', 'tcpcl_models3', 'tcpcl_messenger', 'tcpcl_send',
               'tcpcl_recv', 'tcpcl_handler', 'tcpcl_handler2', 'tcpcl_handler3', 'tcpcl_pump', 'tcpcl_msg',
-              'tcpcl_models4', 'tcpcl_raw', 'tcpcl_modulate', 'tcpcl_agent'],
+              'tcpcl_models4', 'tcpcl_raw', 'tcpcl_modulate', 'tcpcl_agent', 'tcpcl_init'],
     'bp': ['bp_types', 'bp_models', 'bp_blocks', 'bp_agent', 'bp_report', 'bp_fwd', 'bp_apps', 'bp_sec'],
-    'udpcl': ['udpcl_types', 'udpcl_agent'],
+    'udpcl': ['udpcl_types', 'udpcl_agent', 'udpcl_send'],
     'btpu': ['btpu_types', 'btpu_agent'],
     'tagent': ['tagent'],
 }
